@@ -19,7 +19,7 @@ Fixpoint wmatch (ps:list piece) (s:string) : Prop :=
 Definition exh : ref := Ref KAttrErr [PcLit "<analysis fuel exhausted>"].
 
 (* neither a wait nor an attribute error: what arithmetic, comparisons, built-in functions, conversions and typing can produce *)
-Definition noneed {A} (r:res A) : Prop := match r with RNeedV _ | RNeedI _ | RCrash CAttr => False | _ => True end.
+Definition noneed {A} (r:res A) : Prop := match r with RNeedV _ | RNeedI _ | RCrash CAttr | RCrash CThreshold => False | _ => True end.
 
 Lemma noneed_bind A B (ra:res A) (k:A -> res B) : noneed ra -> (forall a, noneed (k a)) -> noneed (bind ra k).
 Proof. destruct ra as [| | | |cr]; simpl; auto. Qed.
@@ -36,8 +36,8 @@ Proof.
 Qed.
 Lemma str_of_noneed v : noneed (str_of v).
 Proof. destruct v; exact I. Qed.
-Lemma threshold_noneed t k : noneed (threshold_lookup t k).
-Proof. unfold threshold_lookup. destruct (t_scalar t), k; try exact I. destruct (find _ _); exact I. Qed.
+Lemma threshold_shape t k : (exists v, threshold_lookup t k = RVal v) \/ threshold_lookup t k = RCrash CThreshold.
+Proof. unfold threshold_lookup. destruct (t_scalar t), k; eauto. destruct (find _ _); eauto. Qed.
 Lemma refs_s_cons vi n a s rest : refs_s vi (S n) a (s :: rest) =
   (
       let drop x := filter (fun kv => negb (String.eqb (fst kv) x)) a in
@@ -89,6 +89,7 @@ Definition ok {A} (r:res A) : Prop :=
   match r with
   | RNeedV n => covers KLine n | RNeedI n => covers KInput n
   | RCrash CAttr => exists rf, In rf R /\ r_kind rf = KAttrErr
+  | RCrash CThreshold => exists rf fo, In rf R /\ r_kind rf = KThreshold fo
   | _ => True
   end.
 
@@ -147,7 +148,10 @@ Ltac st IHe IHx :=
   | |- ok (compare_pv _ _ _) => apply noneed_ok, compare_noneed
   | |- ok (call_fn c _ _) => apply noneed_ok, call_fn_noneed
   | |- ok (str_of _) => apply noneed_ok, str_of_noneed
-  | |- ok (threshold_lookup _ _) => apply noneed_ok, threshold_noneed
+  | Hi : incl _ R |- ok (threshold_lookup ?t ?k) =>
+      destruct (threshold_shape t k) as [[? ->]| ->]; [exact I|]
+  | Hi : incl _ R |- ok (RCrash CThreshold) =>
+      eexists; eexists; split; [apply Hi; repeat (progress (cbn [In]; rewrite ?in_app_iff)); right; left; reflexivity|reflexivity]
   | |- ok (fold_left _ _ _) => apply ok_fold; [intros ? ? ?|]
   | IH : incl ?L R -> ok ?g, Hi : incl _ R |- ok ?g => apply IH; sub Hi
   | Hi : incl ?L R |- ok (?g ?l) =>
@@ -226,6 +230,7 @@ Definition waits_collected (c:ctx) (vi:list string) (fuel:nat) (l:line) : Prop :
   | RNeedV n => covers c (line_refs vi l) KLine n
   | RNeedI n => covers c (line_refs vi l) KInput n
   | RCrash CAttr => exists rf, In rf (line_refs vi l) /\ r_kind rf = KAttrErr       (* an attribute error comes from a node the analysis flagged *)
+  | RCrash CThreshold => exists rf fo, In rf (line_refs vi l) /\ r_kind rf = KThreshold fo   (* the assertion of Form.threshold: from a collected threshold reference *)
   | _ => True
   end.
 
@@ -279,6 +284,16 @@ Example attr_example :
   let l := Line "t" (TFloat 2) true [SIf (ERead RI [NLit "g"]) [SExpr (EAttrErr "self.not_implemented")] []; SReturn (EConst (PNum 0))] in
   let c := Ctx [] "f" None [] [("f.g", PBool true)] ["f"] (fun _ _ => RCrash COther) in
   line_value c 50 l = RCrash CAttr /\ waits_collected c [] 50 l.
+Proof.
+  intros l c. split; [vm_compute; reflexivity|].
+  apply waits_are_collected; [intros; exact I|]. apply not_exh_sound. vm_compute. reflexivity.
+Qed.
+
+(* non-vacuity of the threshold clause: a threshold name the form does not define (the assertion in Form.threshold) *)
+Example threshold_example :
+  let l := Line "t" (TFloat 2) true [SReturn (EThreshold None [NLit "nope"] None)] in
+  let c := Ctx [Form "f" [] [l] []] "f" None [] [] ["f"] (fun _ _ => RCrash COther) in
+  line_value c 50 l = RCrash CThreshold /\ waits_collected c [] 50 l.
 Proof.
   intros l c. split; [vm_compute; reflexivity|].
   apply waits_are_collected; [intros; exact I|]. apply not_exh_sound. vm_compute. reflexivity.
